@@ -13,6 +13,7 @@ mod ops5;
 mod ops6;
 mod ops7;
 mod ops8;
+mod ops9;
 
 fn main() {
     std::panic::set_hook(Box::new(|_| {}));
